@@ -1,5 +1,8 @@
 (* Byte-level model of the handshake message codec InitMsg::{write_to, read_from} (src/crypto/init.rs),
-   after the fix of finding F11 (the parser is given the datagram, not the rest of the receive buffer).
+   as a function of the byte string the parser is handed.  (Finding F11, recorded as a known finding and
+   not repaired: the real caller hands it MsgBuffer::buffer(), i.e. the datagram followed by whatever stale
+   bytes lie behind it in a reused receive buffer; the PeerCrypto-level model op PStale and the C01 check
+   reproduce that; with a fresh buffer - every case but that op - the view is exactly the datagram.)
    Ed25519 and the salted key hash are oracles: `lookup salt hash` says which trusted key (if any) the
    4+4 byte prefix selects, `verify key signed sig` is the signature check. *)
 From VpnModel Require Import Base.
